@@ -446,6 +446,27 @@ def gate_call_after_good(pt, a_spec, b_spec):
         return False
 
 
+def gate_assign(pt, abi, a_spec, b_spec):
+    """the assignment routes: a value of type a produced by an ABI routine (or held by a variable) is put into a variable of
+    type b -> {route: accepted}.  Every route stores the raw value, so an accepted pair must encode alike."""
+    def f(*, output):
+        return output.decode(pt.Bytes(""))
+    f.__annotations__ = {"output": a_spec.annotation_type(), "return": pt.Expr}
+    sub = pt.ABIReturnSubroutine(f)
+    out = {}
+    for route, th in (("store_into", lambda: sub().store_into(b_spec.new_instance())),
+                      ("set(computed)", lambda: b_spec.new_instance().set(sub())),
+                      ("set(instance)", lambda: b_spec.new_instance().set(a_spec.new_instance()))):
+        if route == "set(instance)" and isinstance(b_spec, abi.TupleTypeSpec) and not isinstance(a_spec, abi.TupleTypeSpec):
+            continue     # Tuple.set(x) with a non-tuple x builds a one-element tuple from x: a construction, not an assignment
+        try:
+            th()
+            out[route] = True
+        except (pt.TealInputError, pt.TealTypeError):
+            out[route] = False
+    return out
+
+
 def gate_method_call(pt, abi, a_spec, sig_b):
     """InnerTxnBuilder.MethodCall with an ABI value of spec a for a parameter of signature
     sig_b -> (accepted, spec PyTeal derived from the signature)"""
@@ -620,6 +641,28 @@ def run(tier: str) -> int:
                 rep.violation(f"subroutine first called with a {ob}, then with argument {oa} for the same parameter: accepted={got2} but "
                               f"type_spec_is_assignable_to={real_asg}", {"a": a, "b": b, "str_a": str(oa), "str_b": str(ob), "kind": "gate-after-good"})
 
+    # (6c) the assignment routes (store_into of a routine's result, set from a computed value, set from another variable)
+    from collections import Counter
+    as_n, as_acc, as_bad = 0, Counter(), 0
+    for oa, ob, real_asg, a, b in gate_todo[: (1500 if thorough else 300)]:
+        if not (is_codec_str(str(oa)) and is_codec_str(str(ob))):
+            continue
+        try:
+            got = gate_assign(pt, abi, oa, ob)
+        except Exception:  # noqa: BLE001  (annotation_type unavailable, e.g. tuples of arity > 5)
+            continue
+        as_n += 1
+        for route, acc in got.items():
+            if not acc:
+                continue
+            as_acc[route] += 1
+            failing = oracle_pair(ro, str(oa), str(ob), 3)
+            if failing is not None:
+                as_bad += 1
+                if as_bad <= 4:
+                    rep.violation(f"assignment route {route} lets a {oa} be put into a {ob}: {failing['why']}",
+                                  {"a": a, "b": b, "str_a": str(oa), "str_b": str(ob), "kind": "gate-assign", "route": route, "failing": failing})
+
     # (6b) gate through InnerTxnBuilder.MethodCall (itxn.py:469 and :397)
     mc_n, mc_bad = 0, 0
     for oa, ob, real_asg, a, b in gate_todo[: (1500 if thorough else 300)]:
@@ -659,6 +702,8 @@ def run(tier: str) -> int:
         "gate_calls": gate_n,
         "gate_calls_after_a_good_call_of_the_same_routine": gate_hist_n,
         "gate_method_calls": mc_n,
+        "gate_assignment_pairs": as_n,
+        "gate_assignments_accepted_by_route": dict(as_acc),
         "gate_txn_argument_cases": tn,
         "rule": "real type_spec_is_assignable_to / == / str / type on real TypeSpec objects == Lean model, for every pair; "
                 "every really-accepted pair: algosdk encodings under str(a) and str(b) byte-equal on sampled values, "
@@ -720,6 +765,8 @@ def replay(path: str) -> int:
         print("recorded failing input:", json.dumps(body["failing"])[:1500])
     if body.get("kind") == "gate":
         print("gate call accepted:", gate_call(pt, oa, ob))
+    if body.get("kind") == "gate-assign":
+        print("assignment routes accepted:", gate_assign(pt, abi, oa, ob))
     if body.get("kind") == "gate-methodcall":
         print("MethodCall accepted:", gate_method_call(pt, abi, oa, sb)[0])
     if body.get("kind") == "gate-methodcall-txn":
